@@ -1,4 +1,5 @@
 STRENGTHENED = {
+ "C13-r3m2": "reported only by the happens-before data race tracker added to the engine in this round (write of waLog.mapping in Commit vs read in waLog.Get), confirmed natively with go test -race.",
  "C01-r3m1": "C01's check had no I/O-fault harness (the change needs a failing Commit, not a crash): txfile.VerifFault added to C01 (failed commit, further transactions, restart).",
  "C01-r3m2": "C01's check did not include the free-list serialization lemmas: VerifRegionRoundTrip and VerifFreelistSerialize added to C01 (recovery depends on them).",
  "C03-r3m1": "new operation set for VerifProgStore (overwrite, partial write, read, Flush, CheckpointWAL) with WALLimit 1 and 2 and a second transaction of 3 operations, so that a page with a committed overwrite entry is overwritten in a transaction that checkpoints.",
